@@ -29,14 +29,23 @@ REPS = 6   # runs per case with a type parameter named like a selected type (eve
 # ---------------------------------------------------------------------------------
 
 def extras_for(rng, cmd, pkg):
+    """sub-command specific flags in the mix (they do not change what is selected or how files are named)"""
+    def some(pool, pmax=3):
+        k = rng.choice([0, 0, 1, 1, 2, pmax])
+        return rng.sample(pool, min(k, len(pool)))
     if cmd == "new":
-        has_generic = any(t.get("tparams") for f in pkg["files"] for d in f["decls"] if d["k"] == "types" for t in d["specs"])
-        return rng.choice([[], [], ["-getset"]]) if not has_generic else []
+        fl = some(["-getset", "-json", "-opt", "-short", "-exp", "-option", "-exported"])
+        if "-json" in fl and rng.random() < 0.5:
+            fl.append("-tagcase=" + rng.choice(["pascal", "camel", "lower", "upper"]))
+        return fl
     if cmd == "enum":
-        return rng.choice([[], [], ["-json"], ["-text"]])
+        fl = some(["-json", "-text", "-bit", "-sql", "-bitwise"])
+        if "-sql" in fl and rng.random() < 0.5:
+            fl.append("-gorm")
+        return fl
     if cmd == "map":
-        return ["-path=../dest"] + rng.choice([[], [], ["-alias=dst"]])
-    return []
+        return ["-path=../dest"] + some(["-alias=dst", "-i", "-way=" + rng.choice(["both", "toonly", "fromonly", "->", "<-", "<->"])], 2)
+    return some(["-v=false", "-raw=false", "-ver=v9"], 1)
 
 
 def declared_names(pkg):
@@ -49,11 +58,35 @@ def declared_names(pkg):
     return out
 
 
-def make_case(cid, pkg, argv, tags):
-    files, cwd = cligen.case_files(pkg)
+def pkgdir_of(pkg, invoc):
+    """where the package lives inside the case directory"""
+    if pkg["cmd"] == "map":
+        return "src"
+    return "." if invoc == "pkg" else "p"
+
+
+def dirarg_of(rng, pkg, invoc):
+    """(cwd relative to the case directory, the [dir] argument) - shoot may be run from anywhere"""
+    pd = pkgdir_of(pkg, invoc)
+    if invoc == "pkg":
+        return pd, []
+    if invoc == "parent":
+        return ".", [rng.choice([pd, "./" + pd, pd + "/"])]
+    return "elsewhere", ["../" + pd]
+
+
+def make_case(cid, pkg, argv, tags, invoc="pkg", cwd=None):
+    files, _ = cligen.case_files(pkg)
+    pd = pkgdir_of(pkg, invoc)
+    if pkg["cmd"] != "map" and pd != ".":
+        files = {pd + "/" + k: v for k, v in files.items()}
+    if cwd is None:
+        cwd = pd
+    if cwd == "elsewhere":
+        files["elsewhere/keep.txt"] = "not a package\n"
     args = [pkg["cmd"]] + list(argv)
-    return {"id": cid, "pkg": pkg, "argv": list(argv), "files": files, "runs": [{"args": args, "cwd": cwd}], "cwd": cwd,
-            "sexp": cligen.c16_sexp(cid, pkg, argv), "cmd": "cd <pkgdir> && shoot " + " ".join(args), "tags": tags,
+    return {"id": cid, "pkg": pkg, "argv": list(argv), "files": files, "runs": [{"args": args, "cwd": cwd}], "cwd": cwd, "pkgdir": pd,
+            "sexp": cligen.c16_sexp(cid, pkg, argv), "cmd": "cd <case>/%s && shoot %s" % (cwd, " ".join(args)), "tags": tags + ["invoc-" + invoc],
             "key": cligen.c16_sexp("k", pkg, argv)}
 
 
@@ -67,12 +100,14 @@ def gen_cases(ctx):
     cases = []
     k = [0]
 
-    def add(pkg, sel, tags, directive=None, order="sel-last"):
+    def add(pkg, sel, tags, directive=None, order="sel-last", invoc=None):
         ex = extras_for(rng, pkg["cmd"], pkg)
-        argv = ex + sel if order == "sel-last" else sel + ex
+        invoc = invoc or rng.choice(["pkg", "pkg", "pkg", "parent", "parent", "elsewhere"])
+        cwd, dirarg = dirarg_of(rng, pkg, invoc)
+        argv = (ex + sel if order == "sel-last" else sel + ex) + dirarg      # the [dir] argument comes last: flags after it are not parsed
         if directive:
             g.place_directive(pkg, argv, directive)
-        cases.append(make_case("c%d" % k[0], pkg, argv, tags))
+        cases.append(make_case("c%d" % k[0], pkg, argv, tags, invoc, cwd))
         k[0] += 1
 
     def shaped(cmd):
@@ -205,7 +240,7 @@ def gen_cases(ctx):
                     names.append(c)
             sel = [sel_flag(rng, names)]
             tags = ["named-random"]
-            if rng.random() < 0.2:
+            if rng.random() < 0.35:
                 sel = ["-file=" + rng.choice(p["files"])["name"]] + sel
                 tags = ["file+named-random"]
             add(p, sel, tags + [e for e in extra if e.startswith("tparam-") or e.endswith("-earlier")], order=rng.choice(["sel-last", "sel-first"]))
@@ -242,7 +277,7 @@ def observe(c, r):
     im["exit"] = "panic" if ("panic:" in err or "goroutine " in err) else str(run["rc"])
     files = []
     held = {}
-    pre = "" if c["cwd"] == "." else c["cwd"] + "/"
+    pre = "" if c.get("pkgdir", c["cwd"]) == "." else c.get("pkgdir", c["cwd"]) + "/"
     for rel, content in sorted(r["written"].items()):
         name = rel[len(pre):] if rel.startswith(pre) and "/" not in rel[len(pre):] else "<outside-package-dir>/" + rel
         ts = cligen.types_in_output(cmd, content)
@@ -387,7 +422,7 @@ def replay(ctx, payload):
     else:
         pkg, argv = cligen.pkg_from_sexp(sx)
         files, cwd = cligen.case_files(pkg)
-    c = {"id": "replay", "pkg": pkg, "argv": argv, "files": files, "runs": [{"args": [pkg["cmd"]] + argv, "cwd": cwd}], "cwd": cwd,
+    c = {"id": "replay", "pkg": pkg, "argv": argv, "files": files, "runs": [{"args": [pkg["cmd"]] + argv, "cwd": cwd}], "cwd": cwd, "pkgdir": cwd,
          "sexp": sexp.dump(["case", "replay"] + sx[2:]), "tags": []}
     impl, model = run_cases(ctx, [c])
     print("impl :", impl.get("replay"))
